@@ -744,3 +744,36 @@ func TestC05_Ops(t *testing.T) {
 		}
 	})
 }
+
+// TestC05_Frames applies the same per-operation and per-transaction oracles to structured cases
+// (evmgen.GenFrames): chains of contracts whose bodies emit ETX / CONVERT with run-time-funded
+// operands inside nested CALL / DELEGATECALL / CALLCODE / STATICCALL / CREATE frames that fail or
+// succeed independently of their callers - dense in emissions that are rolled back while the
+// transaction succeeds, and in emissions kept by a frame kind other than CALL.
+func TestC05_Frames(t *testing.T) {
+	rapid.Check(t, func(rt *rapid.T) {
+		c := evmgen.GenFrames(rt, evmgen.FramesOpts{Effects: []string{"convert", "etx", "transfer", "sstore", "selfdestruct"}, FailPctTop: 15,
+			Modes: []string{evmgen.ModeTracedEnforced, evmgen.ModeTracedBypass}})
+		o, err := c.Run()
+		if err != nil {
+			rt.Fatalf("HARNESS: %v", err)
+		}
+		cr := checkCase(rt, "frames", c, o)
+		var uniq []string
+		seen := map[string]bool{}
+		for _, oc := range cr.outcomes {
+			if !seen[oc] {
+				seen[oc] = true
+				uniq = append(uniq, oc)
+			}
+		}
+		txo := "rejected"
+		if o.Res.Err == nil {
+			txo = fmt.Sprintf("status=%d,exports=%d", o.Res.Receipt.Status, len(o.Res.Receipt.OutboundEtxs))
+		}
+		stats.Case("frames", strings.Join(uniq, ",")+"|"+txo+"|"+strings.Join(c.Kinds, ","), cr.nontrivial, cr.labels...)
+		if cr.nontrivial && stats.WantSample("frames") {
+			stats.Sample("frames", map[string]any{"regime": evmgen.RegimeName(c.Env.PrimeTerminusNumber), "mode": c.Mode, "program": strings.Join(c.Kinds, " "), "outcomes": uniq, "tx_outcome": txo})
+		}
+	})
+}
